@@ -1,0 +1,24 @@
+//go:build verif
+
+package redistribute
+
+// Contracts for the deductive checker in /verif (comment-only; compiled only under the verif tag).
+// Group elements G: abstract abelian group ("group").
+
+// Redistribution never changes the key: a next shareholder obtains a shard only if every previous
+// shareholder's broadcast previous public key (constant term of its previous verification vector) equals the
+// public key of the newly aggregated verification vector, and the shard is built by mpc.NewBaseShard from the
+// aggregated share and vector (so the share matches the public data it reports).
+//@ pure func prevAt(p *Participant, a Int) Int = seqat(p.otherPrevShareholders(), a, int)
+//@ pure func oldPkOf(r2b V, id sharing.ID) V = res(res(r2b.Get(id), 0).PrevVerificationVector.Value().Get(0, 0), 0)
+//@ pure func newPkOf(p *Participant) V = res(p.state.shareVerificationVector.Value().Get(0, 0), 0)
+
+//@ func (*Participant).Round3
+//@   property C06, C04
+//@   bind G group, PrimeGroup groupS
+//@   opt trustpre=on
+//@   ensures err == nil && result != nil ==> forall a Int :: 0 <= a && a < seqlen(p.otherPrevShareholders()) ==> oldPkOf(r2b, prevAt(p, a)) == newPkOf(p)
+//@   ensures err == nil && result != nil ==> exists m V :: res(mpc.NewBaseShard(p.state.share, p.state.shareVerificationVector, m), 1) == nil && result == res(mpc.NewBaseShard(p.state.share, p.state.shareVerificationVector, m), 0)
+//@   loop range(p.otherPrevShareholders())#4
+//@     invariant forall a Int :: 0 <= a && a < $i ==> oldPkOf(r2b, prevAt(p, a)) == newPk
+//@     invariant newPk == newPkOf(p)
